@@ -372,6 +372,7 @@ type State struct {
 	nameLog []string                // (term, constant) pairs in the order they were named
 	brokenInv bool                  // the path passed the head of a loop one of whose invariants could not be evaluated (contract out of date)
 	weak    bool                    // the path passed the head of a loop that has no invariant: states on it need not be reachable
+	preArgs map[*ast.CallExpr][]Val // arguments of deferred calls, evaluated at the defer statement (Go semantics)
 	inlineEntry *State              // state at the entry of the function being executed inline (old() of its loop invariants)
 }
 
@@ -418,6 +419,12 @@ func (s *State) fork() *State {
 	n.polls = s.polls[:len(s.polls):len(s.polls)]
 	n.nameLog = s.nameLog[:len(s.nameLog):len(s.nameLog)]
 	n.inlineEntry = s.inlineEntry
+	if s.preArgs != nil {
+		n.preArgs = make(map[*ast.CallExpr][]Val, len(s.preArgs))
+		for k, v := range s.preArgs {
+			n.preArgs[k] = v
+		}
+	}
 	n.weak = s.weak
 	n.brokenInv = s.brokenInv
 	if s.writes != nil {
